@@ -4,6 +4,7 @@ import (
 	"fmt"
 	"go/token"
 	"go/types"
+	"sort"
 
 	"golang.org/x/tools/go/ssa"
 )
@@ -20,6 +21,7 @@ func checkC14(c *Ctx) {
 	c14RangeScanner(c)
 	c14RangeTracks(c)
 	c14NodeRangeStart(c)
+	c14TokenKind(c, "R7")
 }
 
 // range.tracks: a parser loop that accumulates items in a slice and tracks the source range of the
@@ -599,4 +601,205 @@ func c14NodeRangeStart(c *Ctx) {
 		}
 	}
 	c.Floor("range.start StartRange uses", n, 8, "the delegating StartRange methods and the diagnostics of FunctionCallExpr.Value")
+}
+
+// token.kind: a token variable that is deliberately assigned tokens of one type is not, on some
+// other path, assigned a token whose test for that type has just failed (contradiction rule).
+func c14TokenKind(c *Ctx, rule string) {
+	c.Rule(rule + " token.kind: in hclsyntax, when a Token variable is assigned on some paths a token established to have type K (read right after Peek().Type == K, or copied from a token under its own Type == K test), it is on no path assigned a copy of a token whose Type == K test failed on that path (unless that token passed a test for a type that other assignments of the variable establish as well: a variable for 'either kind'): the variable records 'the K token' (the closing parenthesis whose range becomes CloseParenRange, …) and a token known not to be one is the wrong token")
+	pkg := c.P.Pkg("hclsyntax")
+	if pkg == nil {
+		c.CheckerFail("token.kind", "package hclsyntax not loaded")
+		return
+	}
+	isTok := func(t types.Type) bool { return isNamed(t, modPath+"/hclsyntax", "Token") }
+	// facts about the token held in cell d at block b: kinds it is known to have / known not to have
+	typeTests := func(d ssa.Value, b *ssa.BasicBlock) (pos, neg map[int64]bool) {
+		pos, neg = map[int64]bool{}, map[int64]bool{}
+		for cur := b; cur != nil; cur = cur.Idom() {
+			idom := cur.Idom()
+			if idom == nil {
+				break
+			}
+			iff, ok := idom.Instrs[len(idom.Instrs)-1].(*ssa.If)
+			if !ok || len(cur.Preds) != 1 {
+				continue
+			}
+			bo, ok := iff.Cond.(*ssa.BinOp)
+			if !ok || (bo.Op != token.EQL && bo.Op != token.NEQ) {
+				continue
+			}
+			k, ok := constInt(bo.Y)
+			x := bo.X
+			if !ok {
+				k, ok = constInt(bo.X)
+				x = bo.Y
+			}
+			if !ok {
+				continue
+			}
+			// x = d.Type
+			isTypeOf := false
+			switch t := x.(type) {
+			case *ssa.UnOp:
+				if fa, ok := t.X.(*ssa.FieldAddr); ok && fa.Field == 0 && fa.X == d {
+					isTypeOf = true
+				}
+			case *ssa.Field:
+				if t.Field == 0 && t.X == d {
+					isTypeOf = true
+				}
+			}
+			if !isTypeOf {
+				continue
+			}
+			onTrue := idom.Succs[0] == cur
+			if (bo.Op == token.EQL) == onTrue {
+				pos[int64(k)] = true
+			} else {
+				neg[int64(k)] = true
+			}
+		}
+		return
+	}
+	cells := 0
+	for _, fn := range c.P.pkgFuncs("hclsyntax") {
+		for _, b := range fn.Blocks {
+			for _, ins := range b.Instrs {
+				al, ok := ins.(*ssa.Alloc)
+				if !ok || !isTok(al.Type().(*types.Pointer).Elem()) {
+					continue
+				}
+				type st struct {
+					s        *ssa.Store
+					pos, neg map[int64]bool
+				}
+				var stores []st
+				for _, r := range *al.Referrers() {
+					s, ok := r.(*ssa.Store)
+					if !ok || s.Addr != ssa.Value(al) {
+						continue
+					}
+					e := st{s: s, pos: map[int64]bool{}, neg: map[int64]bool{}}
+					switch v := s.Val.(type) {
+					case *ssa.Call:
+						if cal := v.Call.StaticCallee(); cal != nil && cal.Name() == "Read" && len(v.Call.Args) == 1 {
+							// the token peeked last: a Peek() result tested on the way here
+							// only the test that directly guards this block, with no other read before this one
+							firstRead := true
+							for _, i2 := range s.Block().Instrs {
+								if i2 == ssa.Instruction(v) {
+									break
+								}
+								if c2, ok := i2.(*ssa.Call); ok {
+									if cal := c2.Call.StaticCallee(); cal != nil && (cal.Name() == "Read" || cal.Name() == "Peek") {
+										firstRead = false
+									}
+								}
+							}
+							for cur := s.Block(); cur != nil && firstRead; cur = nil {
+								idom := cur.Idom()
+								if idom == nil {
+									break
+								}
+								iff, ok := idom.Instrs[len(idom.Instrs)-1].(*ssa.If)
+								if !ok || len(cur.Preds) != 1 {
+									continue
+								}
+								bo, ok := iff.Cond.(*ssa.BinOp)
+								if !ok || (bo.Op != token.EQL && bo.Op != token.NEQ) {
+									continue
+								}
+								k, ok := constInt(bo.Y)
+								if !ok {
+									continue
+								}
+								var src ssa.Value
+								switch t := bo.X.(type) {
+								case *ssa.Field:
+									src = t.X
+								case *ssa.UnOp:
+									if fa, ok := t.X.(*ssa.FieldAddr); ok && fa.Field == 0 {
+										if cell, ok := fa.X.(*ssa.Alloc); ok {
+											// the single value stored into a peeked-token cell
+											for _, r2 := range *cell.Referrers() {
+												if s2, ok := r2.(*ssa.Store); ok && s2.Addr == ssa.Value(cell) {
+													src = s2.Val
+												}
+											}
+										}
+									}
+								}
+								pk, ok := src.(*ssa.Call)
+								if !ok {
+									continue
+								}
+								if cal := pk.Call.StaticCallee(); cal == nil || cal.Name() != "Peek" {
+									continue
+								}
+								if (bo.Op == token.EQL) == (idom.Succs[0] == cur) {
+									e.pos[int64(k)] = true
+								}
+								break
+							}
+						}
+					case *ssa.UnOp:
+						if d, ok := v.X.(*ssa.Alloc); ok && v.Op == token.MUL && isTok(d.Type().(*types.Pointer).Elem()) {
+							e.pos, e.neg = typeTests(d, s.Block())
+						}
+					}
+					stores = append(stores, e)
+				}
+				kinds := map[int64]int{}
+				for _, e := range stores {
+					for k := range e.pos {
+						kinds[k]++
+					}
+				}
+				if len(kinds) == 0 {
+					continue
+				}
+				cells++
+				c.Sites++
+				c.Fn(FuncName(fn))
+				var bad *st
+				var badK int64
+				for i := range stores {
+					e := &stores[i]
+					// a type this token passed that other assignments establish too: a variable for
+					// "either kind", no contradiction
+					shared := false
+					for k := range e.pos {
+						if kinds[k] > 1 {
+							shared = true
+						}
+					}
+					if shared {
+						continue
+					}
+					for k := range e.neg {
+						if (len(e.pos) == 0 && kinds[k] > 0) || kinds[k] > 1 {
+							bad, badK = e, k
+						}
+					}
+				}
+				key := fmt.Sprintf("%s:token[%s]", FuncName(fn), al.Comment)
+				if bad == nil {
+					c.OK("token.kind", key, al.Pos(), fmt.Sprintf("%d assignments, kinds %v", len(stores), sortedKinds(kinds)))
+				} else {
+					c.Fail("token.kind", key, bad.s.Pos(), fmt.Sprintf("`%s` holds the token of type %q on the other paths, but is assigned here a token whose test for that type has just failed (a separator, not the closing token): the range recorded from it ends before the construct does, and the writer's loader, which assigns tokens to nodes by these ranges, misplaces the real closing token", al.Comment, rune(badK)))
+				}
+			}
+		}
+	}
+	c.Floor("token.kind token variables with an established type", cells, 3, "closeTok of finishParsingFunctionCall and the close tokens of the bracketed constructs")
+}
+
+func sortedKinds(m map[int64]int) []string {
+	var out []string
+	for k := range m {
+		out = append(out, string(rune(k)))
+	}
+	sort.Strings(out)
+	return out
 }
